@@ -168,3 +168,24 @@ Theorem C09_step_constants_are_source :
   /\ Z.of_N Bio.Model.Align.Gap = SrcGen.k_align_Gap.
 Proof. exact SrcGenProofs.step_constants. Qed.
 Print Assumptions C09_step_constants_are_source.
+
+(* ---- tie to the Go source by translation of whole function bodies (gen/ImpGen.v, written
+   by `harness gen-imp` on every run, in the embedding of Model/GoSem.v) ------------------- *)
+From Bio.gen Require ImpGen.
+From Bio.Model Require GoSem.
+From Bio.Proofs Require ImpProofs ImpProofsD ImpProofsE.
+
+(* Global as translated from global.go (the flat DP loop over blocks, decideOnStep, the
+   traceback loop and the in-place reversal of the steps, m.Get on every read) returns, for
+   every matrix that answers the pairs the two sequences need and for every a and b, exactly
+   the steps and the score of the model's Global, whenever the model returns (which
+   C09_global_total-style theorems above establish under the same hypothesis).  The fuel is
+   for the two `for cond {}` loops of traceAlignmentSteps.  Not covered by this statement:
+   the panic side (a matrix that lacks a needed pair), which stays with the correspondence
+   runs. *)
+Theorem C09_global_is_source : forall fuel m a b steps s, covers m a b ->
+  (S (length a) * S (length b) < fuel)%nat ->
+  global m a b = Ok (steps, s) ->
+  ImpGen.imp_align_Global fuel a b m = GoSem.Ret (map ImpProofsD.step_n steps, s).
+Proof. exact ImpProofsE.imp_Global_ok. Qed.
+Print Assumptions C09_global_is_source.
